@@ -199,6 +199,52 @@ func c13One(k *c13Case) *core.Viol {
 	return nil
 }
 
+// doRedef: define k1's macro, use it, redefine the same name with k2's template, use the identical call text again.
+func doRedef(c *core.Ctx, k1, k2 *c13Case) bool {
+	if c.Expired() {
+		return false
+	}
+	key := "redef|" + k1.key() + "|" + k2.key()
+	if !c.Mine("macro", key) {
+		return true
+	}
+	run := func() *core.Viol {
+		st := eval.NewState()
+		cs := core.Case{Kind: "redef", Data: key}
+		for _, k := range []*c13Case{k1, k2} {
+			wm, sub := k.programs()
+			for i := range wm {
+				exp, e1 := c13Expand(st, wm[i])
+				if e1 != "" {
+					return &core.Viol{Class: "expand-failed", Detail: e1, Case: cs}
+				}
+				if i == 0 {
+					continue
+				}
+				sp := parseText([]byte(sub[i]), false)
+				if !sp.clean() {
+					return nil
+				}
+				if d1, d2 := obs.DumpAST(exp, obs.DumpOpt{}), obs.DumpAST(sp.prog, obs.DumpOpt{}); d1 != d2 {
+					return &core.Viol{Class: "expansion-after-redefinition-differs", Detail: fmt.Sprintf("after (re)defining %q, %q expanded to %s, expected %s", k.def(), wm[i], trunc(d1, 200), trunc(d2, 200)), Case: cs, FindText: key}
+				}
+			}
+		}
+		return nil
+	}
+	var v *core.Viol
+	if run() != nil {
+		v = c.Run(run)
+	}
+	out := "exact"
+	if v != nil {
+		out = v.Class
+	}
+	c.Count("macro: "+trunc(key, 160), out, true)
+	c.P.Traces++
+	return true
+}
+
 func c13Templates(maxSize int) []string {
 	cfg := gen.Cfg{
 		Leaves: []string{"unquote(x)", "unquote(y)", "1", "v"},
@@ -310,6 +356,28 @@ func runC13(c *core.Ctx) {
 			}
 		}
 		bounds = append(bounds, fmt.Sprintf("%d templates of size <=2 x %d call-site contexts (top level, function, loop, array/map literal, index/dot base, callee position, operand, another call's or macro's argument, assignment, condition, return, lambda body) x 5x2 arguments x 1-2 uses x same input / split over inputs", len(small), len(c13Sites)-1))
+	}
+	// F2b: ALL-CAPS parameter names, several uses with different arguments; redefinition of the macro between uses
+	if ok {
+		small := c13Templates(2)
+		for _, t := range small {
+			tu := strings.ReplaceAll(strings.ReplaceAll(t, "unquote(x)", "unquote(X)"), "unquote(y)", "unquote(ARG_1)")
+			for _, split := range []bool{false, true} {
+				do(&c13Case{params: []string{"X", "ARG_1"}, tmpl: tu, site: "%s", args: [][]string{{"1", "v"}, {"a + b", "2"}, {"1", "v"}}, split: split})
+			}
+			for _, t2 := range small[:12] {
+				if t2 == t {
+					continue
+				}
+				// def t; use; redefine as t2; same call text again
+				k1 := &c13Case{params: []string{"x", "y"}, tmpl: t, site: "%s", args: [][]string{{"v", "1"}}, split: true}
+				k2 := &c13Case{params: []string{"x", "y"}, tmpl: t2, site: "%s", args: [][]string{{"v", "1"}}, split: true}
+				if ok = doRedef(c, k1, k2); !ok {
+					break
+				}
+			}
+		}
+		bounds = append(bounds, "ALL-CAPS parameter names with three uses; redefinition of the macro between two identical call texts (all pairs of small templates x 12)")
 	}
 	// F3: 0..4 parameters, each used 0..3 times
 	if ok {
